@@ -243,6 +243,7 @@ def run_multistage(item):
             m.stage_builts[si].stage.sample(m.stage_builts[si].xel[0], grid='control')
         else:
             m.ocp._transcribed
+            m.ocp.value(m.ocp.objective)       # the objective of the whole problem is read once BEFORE the edits
         after = declared(m)
         if before != after:
             viol.append({'property': PROP, 'key': 'declaration-altered|%s' % (item.get('first_query') or 'ocp'), 'label': 'stage lists', 'cfg': 'MS+DC', 'spec': 'two stages (c12.stage_model)',
@@ -267,7 +268,7 @@ def run_multistage(item):
                 fs['spec'].cons = []
     rejected = None
     try:
-        E_ = Inst(None, None, seed=item.get('seed', 0), built=m, solver=False, extra_outputs=lambda b: [b.ocp.value(b.w), b.ocp.value(b.w2), b.ocp.value(b.pa), b.ocp.value(b.pb)])
+        E_ = Inst(None, None, seed=item.get('seed', 0), built=m, solver=False, extra_outputs=lambda b: [b.ocp.value(b.w), b.ocp.value(b.w2), b.ocp.value(b.pa), b.ocp.value(b.pb), b.ocp.value(b.ocp.objective)])
     except RockitRaised as e:
         rejected = str(e)
     if rejected:
@@ -292,6 +293,11 @@ def run_multistage(item):
         mf.ocp.solver('ipopt')
     F = Inst(None, None, seed=item.get('seed', 0), built=mf, solver=False, like=E_, bind=bind_positional(), extra_outputs=lambda b: [b.ocp.value(b.w), b.ocp.value(b.w2), b.ocp.value(b.pa), b.ocp.value(b.pb)])
     ch = Checker(E_)
+    # value(ocp.objective), read once before the edits and again now, is the cost of the EDITED problem
+    if not ch.prove('value(ocp.objective) == f after the edits', {d: E_.view(d)[5][4][0] for d in E_.domains()}, {d: E_.view(d)[0] for d in E_.domains()}) and ch.violations:
+        v_ = ch.violations.pop()
+        viol.append({'property': PROP, 'key': 'objective-value-stale|substage-edit:%s' % (ops[-1] if ops else 'query'), 'label': 'value(ocp.objective)', 'cfg': 'MS+DC', 'spec': 'two stages (c12.stage_model)',
+                     'detail': 'value(ocp.objective) of the evolved OCP (read once before the edits on sub-stage %d, and again after them) is not its NLP objective: %s' % (si, {k: v_.get(k) for k in ('how', 'impl', 'ref')})})
     diffs, npairs = compare_nlps(ch, E_, F, 'evolved', 'fresh')
     for key, label, detail in diffs:
         viol.append({'property': PROP, 'key': '%s|substage-edit:%s' % (key, ops[-1]), 'label': label, 'detail': detail + ' (history: transcribe two-stage OCP, then %s on sub-stage %d)' % (', '.join(ops), si),
